@@ -47,7 +47,21 @@ VARIANTS = {
     'deny-bus-errors': '    <deny receive_sender="org.freedesktop.DBus" receive_type="error" receive_requested_reply="true"/>\n',
     'deny-bus-signals': '    <deny receive_sender="org.freedesktop.DBus" receive_type="signal" receive_member="NameOwnerChanged" receive_interface="org.freedesktop.DBus"/>\n',
 }
-FILTERS = {'all': [], 'signals': [b"type='signal'"], 'fromA': None, 'ns': [b"path_namespace='/t'"], 'toA': 'destA', 'toAname': [b"destination='com.example.A'"]}
+FILTERS = {'all': [], 'signals': [b"type='signal'"], 'fromA': None, 'ns': [b"path_namespace='/t'"], 'toA': 'destA', 'toAname': [b"destination='com.example.A'"],
+           # rules naming the unique name of a connection that goes away later (B disconnects in the alphabet): the filter is
+           # what the monitor asked for, for as long as it is a monitor
+           'aboutB': 'aboutB'}
+
+
+def filter_texts(name, run):
+    f = FILTERS[name]
+    if f is None:
+        return [b"sender='%s'" % run.uname['A']]
+    if f == 'destA':
+        return [b"destination='%s'" % run.uname['A']]
+    if f == 'aboutB':
+        return [b"destination='%s'" % run.uname['B'], b"sender='%s'" % run.uname['B']]
+    return f
 PEERS = ['A', 'B']
 
 
@@ -211,11 +225,7 @@ class Session:
         return None
 
     def filter_rules(self, run):
-        f = FILTERS[self.filter]
-        if f is None:
-            f = [b"sender='%s'" % run.uname['A']]
-        elif f == 'destA':
-            f = [b"destination='%s'" % run.uname['A']]
+        f = filter_texts(self.filter, run)
         rules = []
         for t in f:
             v = M.parse(t)
@@ -242,12 +252,20 @@ class Session:
                     lab = line.split(' ')[2].split(':')[0].lstrip('@')
                     if run.uname.get(lab):
                         owned.setdefault(run.uname[lab], set()).add(line.split(' ')[1].encode())
+            owner_of = {n: u for u, ns in owned.items() for n in ns}
+
+            def dest_names(d):
+                # a destination rule is compared with the connection the message is addressed to: every name that
+                # connection is the primary owner of (its unique name included) counts
+                if d is None:
+                    return set()
+                u = owner_of.get(d, d)
+                return {d, u} | owned.get(u, set()) if (u in owned or u in owner_of.values() or d in owner_of) else {d}
             for o in ref:
                 m_ = o.msg
                 if selfaddr(m_):
                     continue
-                v_ = M.MsgView(m_.mtype, {m_.sender} | owned.get(m_.sender, set()),
-                               ({m_.destination} | owned.get(m_.destination, set())) if m_.destination is not None else set(), m_.interface, m_.member, m_.path, m_.body, False)
+                v_ = M.MsgView(m_.mtype, {m_.sender} | owned.get(m_.sender, set()), dest_names(m_.destination), m_.interface, m_.member, m_.path, m_.body, False)
                 if any(M.matches(r, v_, holder_is_addressee=True) for r in rules):
                     wantm[R.canon_msg(m_)] += 1
             if gotm != wantm:
@@ -395,11 +413,7 @@ class Session:
             self.mstate = op[1]
         elif kind == 'become':
             self.filter = op[1]
-            f = FILTERS[op[1]]
-            if f is None:
-                f = [b"sender='%s'" % self.a.uname['A']]
-            elif f == 'destA':
-                f = [b"destination='%s'" % self.a.uname['A']]
+            f = filter_texts(op[1], self.a)
             c = self.a.slots['M']
             s = self.a.bus.next_serial(c)
             m = R.method_call(s, R.BUS, R.BUS_PATH, b'org.freedesktop.DBus.Monitoring', 'BecomeMonitor', [R.A('s', [R.S(x) for x in f]), R.U(0)])
